@@ -30,7 +30,11 @@ def gen_case(rng, op):
             if o not in seen:
                 seen.add(o)
                 oids.append(o)
-        return {"op": "get_many", "oids": oids, "vbs": [(o, M.gen_value(rng)) for o in oids]}
+        # the reply's names are the agent's: now and then one under joint-iso-itu-t(2) with a second arc >= 40
+        names = [o if rng.random() < 0.9 else M.gen_oid_wide(rng) for o in oids]
+        if len(set(names)) < len(names):
+            names = oids
+        return {"op": "get_many", "oids": oids, "vbs": [(o, M.gen_value(rng)) for o in names]}
     # walks: names strictly increasing below a base
     base = M.gen_oid(rng, 2, 8)
     n = 1 if op == "getnext" else rng.choice([1, 2, 3, 7, 20, rng.randrange(1, 30)])
